@@ -1,2 +1,14 @@
 import Solvor.Graph.Theorems
 /-! Axiom audit for the property theorems of C14 (run by every check). -/
+#print axioms Solvor.Graph.scc_cert
+#print axioms Solvor.Graph.chkScc_iff
+#print axioms Solvor.Graph.reach_correct
+#print axioms Solvor.Graph.scc_decomp_unique
+#print axioms Solvor.Graph.kahn_correct
+#print axioms Solvor.Graph.stuck_set_has_cycle
+#print axioms Solvor.Graph.topo_order_acyclic
+#print axioms Solvor.Graph.chkTopo_correct
+#print axioms Solvor.Graph.cyclicB_correct
+#print axioms Solvor.Graph.condense_spec
+#print axioms Solvor.Graph.chkCondense_correct
+#print axioms Solvor.Graph.condense_mirror_spec
